@@ -213,7 +213,8 @@ fn over_limit(limit: Option<Limit>, len: usize, chars: usize) -> bool {
     }
 }
 
-/// Is the container `v` printed in expanded form?
+/// Is the container `v` printed in expanded form? (definition; `Plan` computes the same
+/// bottom-up in one pass)
 pub fn expanded(v: &RV, o: &Opts) -> bool {
     match v {
         RV::Arr(a) => a.iter().any(|c| expanded(c, o)) || over_limit(o.array_limit, a.len(), inline_width(v, o)),
@@ -222,6 +223,142 @@ pub fn expanded(v: &RV, o: &Opts) -> bool {
         }
         _ => false,
     }
+}
+
+/// The layout decision for every container, computed bottom-up: the one-line text of each
+/// node is built once from the one-line texts of its children and *measured* (number of
+/// characters actually printed), then the limits are applied.
+pub struct Plan {
+    pub inline: String,
+    pub width: usize,
+    pub expanded: bool,
+    pub children: Vec<Plan>,
+}
+
+pub fn plan(v: &RV, o: &Opts) -> Plan {
+    match v {
+        RV::Arr(a) => {
+            let children: Vec<Plan> = a.iter().map(|c| plan(c, o)).collect();
+            let mut s = String::from("[");
+            if a.is_empty() {
+                sp(o.array_empty, &mut s);
+            } else {
+                sp(o.array_begin, &mut s);
+                for (i, c) in children.iter().enumerate() {
+                    if i > 0 {
+                        sp(o.array_before_comma, &mut s);
+                        s.push(',');
+                        sp(o.array_after_comma, &mut s);
+                    }
+                    s.push_str(&c.inline);
+                }
+                sp(o.array_end, &mut s);
+            }
+            s.push(']');
+            let width = s.chars().count();
+            let expanded = children.iter().any(|c| c.expanded) || over_limit(o.array_limit, a.len(), width);
+            Plan { inline: s, width, expanded, children }
+        }
+        RV::Obj(m) => {
+            let children: Vec<Plan> = m.iter().map(|(_, c)| plan(c, o)).collect();
+            let mut s = String::from("{");
+            if m.is_empty() {
+                sp(o.object_empty, &mut s);
+            } else {
+                sp(o.object_begin, &mut s);
+                for (i, ((k, _), c)) in m.iter().zip(children.iter()).enumerate() {
+                    if i > 0 {
+                        sp(o.object_before_comma, &mut s);
+                        s.push(',');
+                        sp(o.object_after_comma, &mut s);
+                    }
+                    lit(k, &mut s);
+                    sp(o.object_before_colon, &mut s);
+                    s.push(':');
+                    sp(o.object_after_colon, &mut s);
+                    s.push_str(&c.inline);
+                }
+                sp(o.object_end, &mut s);
+            }
+            s.push('}');
+            let width = s.chars().count();
+            let expanded = children.iter().any(|c| c.expanded) || over_limit(o.object_limit, m.len(), width);
+            Plan { inline: s, width, expanded, children }
+        }
+        leaf => {
+            let mut s = String::new();
+            inline(leaf, o, &mut s);
+            let width = s.chars().count();
+            Plan { inline: s, width, expanded: false, children: Vec::new() }
+        }
+    }
+}
+
+fn emit(v: &RV, p: &Plan, o: &Opts, d: usize, out: &mut String) {
+    if !p.expanded {
+        out.push_str(&p.inline);
+        return;
+    }
+    match v {
+        RV::Arr(a) => {
+            out.push('[');
+            out.push('\n');
+            for (j, (c, cp)) in a.iter().zip(&p.children).enumerate() {
+                if j > 0 {
+                    sp(o.array_before_comma, out);
+                    out.push_str(",\n");
+                }
+                indent(o.indent, d + 1, out);
+                emit(c, cp, o, d + 1, out);
+            }
+            if !a.is_empty() {
+                out.push('\n');
+            }
+            indent(o.indent, d, out);
+            out.push(']');
+        }
+        RV::Obj(m) => {
+            out.push('{');
+            out.push('\n');
+            for (j, ((k, c), cp)) in m.iter().zip(&p.children).enumerate() {
+                if j > 0 {
+                    sp(o.object_before_comma, out);
+                    out.push_str(",\n");
+                }
+                indent(o.indent, d + 1, out);
+                lit(k, out);
+                sp(o.object_before_colon, out);
+                out.push(':');
+                sp(o.object_after_colon, out);
+                emit(c, cp, o, d + 1, out);
+            }
+            if !m.is_empty() {
+                out.push('\n');
+            }
+            indent(o.indent, d, out);
+            out.push('}');
+        }
+        _ => unreachable!(),
+    }
+}
+
+/// Prints `v` under `o`; returns the text and whether the root is expanded.
+pub fn print_planned(v: &RV, o: &Opts) -> (String, bool) {
+    let p = plan(v, o);
+    let mut s = String::new();
+    emit(v, &p, o, 0, &mut s);
+    (s, p.expanded)
+}
+
+pub fn print(v: &RV, o: &Opts) -> String {
+    print_planned(v, o).0
+}
+
+/// The direct (definitional, slower) printer, kept to cross-check the planned one.
+pub fn print_direct(v: &RV, o: &Opts) -> String {
+    let mut s = String::new();
+    print_at(v, o, 0, &mut s);
+    s
 }
 
 pub fn print_at(v: &RV, o: &Opts, d: usize, out: &mut String) {
@@ -272,12 +409,6 @@ pub fn print_at(v: &RV, o: &Opts, d: usize, out: &mut String) {
     }
 }
 
-pub fn print(v: &RV, o: &Opts) -> String {
-    let mut s = String::new();
-    print_at(v, o, 0, &mut s);
-    s
-}
-
 pub fn compact(v: &RV) -> String {
     print(v, &Opts::compact())
 }
@@ -285,21 +416,21 @@ pub fn compact(v: &RV) -> String {
 /// All one-line widths of the containers inside `v` under `o` (used to build thresholds
 /// that straddle the actual widths).
 pub fn container_widths(v: &RV, o: &Opts, out: &mut Vec<usize>) {
-    match v {
-        RV::Arr(a) => {
-            out.push(inline_width(v, o));
-            for c in a {
-                container_widths(c, o, out);
-            }
+    fn go(v: &RV, p: &Plan, out: &mut Vec<usize>) {
+        if v.is_container() {
+            out.push(p.width);
         }
-        RV::Obj(m) => {
-            out.push(inline_width(v, o));
-            for (_, c) in m {
-                container_widths(c, o, out);
-            }
+        for c in &p.children {
+            // children of a container are in the same order as the plan's
+            let _ = c;
         }
-        _ => {}
+        match v {
+            RV::Arr(a) => a.iter().zip(&p.children).for_each(|(c, cp)| go(c, cp, out)),
+            RV::Obj(m) => m.iter().zip(&p.children).for_each(|((_, c), cp)| go(c, cp, out)),
+            _ => {}
+        }
     }
+    go(v, &plan(v, o), out)
 }
 
 #[cfg(test)]
@@ -313,6 +444,27 @@ mod tests {
             ("b\n".into(), RV::str("\u{1}\u{7f}/")),
         ]);
         assert_eq!(compact(&v), "{\"a\":[1,null],\"b\\n\":\"\\u0001\u{7f}/\"}");
+    }
+
+    #[test]
+    fn planned_equals_direct() {
+        use crate::value::Gen;
+        let leaves = [RV::num("0"), RV::str("ab"), RV::Null];
+        let keys = ["a", "bb"];
+        let g = Gen::new(&leaves, &keys, 4);
+        for v in g.up_to(4) {
+            for base in [Opts::pretty(), Opts::compact(), Opts::inline()] {
+                for lim in [None, Some(Limit::Always), Some(Limit::Item(1)), Some(Limit::Width(7)), Some(Limit::ItemOrWidth(2, 9))] {
+                    let mut o = base.clone();
+                    o.array_limit = lim;
+                    o.object_empty = 2;
+                    o.array_begin = 2;
+                    assert_eq!(print(&v, &o), print_direct(&v, &o));
+                    o.object_limit = lim;
+                    assert_eq!(print(&v, &o), print_direct(&v, &o));
+                }
+            }
+        }
     }
 
     #[test]
